@@ -4,7 +4,7 @@ use krp_harness::{chain, dump, gen, grid, kernel, ops, run_ops_text};
 
 fn usage() -> ! {
     eprintln!(
-        "usage:\n  krp-harness run OPSFILE          (OPSFILE `-` = stdin)\n  krp-harness kernel NAME SEED COUNT   (NAME = deleg|undeleg|ddiv|nwr|swapinfo|drewards)\n  krp-harness gen PROFILE SEED NHIST LEN OPSFILE OBSFILE   (PROFILE = general|pricing|unbond|rewards|registry|token|config|pause|exit|synth)\n  krp-harness grid OPSFILE OBSFILE   (authorisation grid)\n  krp-harness kernel-eval NAME     (stdin: `ARGS` lines; prints `ARGS => RESULT` from the real code)\n  krp-harness roundtrip OPSFILE    (parse and re-print every operation)\n  krp-harness explain OPSFILE      (like run, but prints op lines and failure reasons; diagnostics only)\nenvironment: KRP_NO_CACHE=1 disables the (sound) memoisation of dump fragments"
+        "usage:\n  krp-harness run OPSFILE          (OPSFILE `-` = stdin)\n  krp-harness kernel NAME SEED COUNT   (NAME = deleg|undeleg|ddiv|nwr|swapinfo|drewards)\n  krp-harness gen PROFILE SEED NHIST LEN OPSFILE OBSFILE   (PROFILE = general|pricing|unbond|rewards|registry|token|config|pause|exit|synth)\n  krp-harness grid OPSFILE OBSFILE   (authorisation grid)\n  krp-harness kernel-eval NAME     (stdin: `ARGS` lines; prints `ARGS => RESULT` from the real code)\n  krp-harness roundtrip OPSFILE    (parse and re-print every operation)\n  krp-harness explain OPSFILE      (like run, but prints op lines and failure reasons; diagnostics only)\n  krp-harness canon-order          (ADDRS in ascending byte order of their canonical addresses: the iteration order of maps keyed by canonical address; table embedded in ocaml/driver.ml)\nenvironment: KRP_NO_CACHE=1 disables the (sound) memoisation of dump fragments"
     );
     std::process::exit(2);
 }
@@ -193,6 +193,24 @@ fn main() {
                 eprintln!("krp-harness: {}", e);
                 std::process::exit(2);
             }
+        }
+        "canon-order" => {
+            // The 21 names of ADDRS sorted by the bytes of `Api::addr_canonicalize` (the key order
+            // of cw20-legacy BALANCES / ALLOWANCES and of the reward HOLDERS map), one line
+            // `RANK NAME HEX`, then the names on one line in OCaml array syntax.
+            use cosmwasm_std::Api;
+            let api = chain::api();
+            let mut v: Vec<(Vec<u8>, &str)> = chain::ADDRS
+                .iter()
+                .map(|a| (api.addr_canonicalize(a).expect("canonicalize").as_slice().to_vec(), *a))
+                .collect();
+            v.sort();
+            for (i, (c, a)) in v.iter().enumerate() {
+                let hex: String = c.iter().map(|b| format!("{:02x}", b)).collect();
+                writeln!(w, "{} {} {}", i, a, hex).unwrap();
+            }
+            let names: Vec<String> = v.iter().map(|(_, a)| format!("\"{}\"", a)).collect();
+            writeln!(w, "[| {} |]", names.join("; ")).unwrap();
         }
         "kernel-eval" => {
             // read `ARGS` lines (optionally `ARGS => anything`) on stdin, print `ARGS => RESULT`
